@@ -6,7 +6,7 @@ use serde::de::DeserializeOwned;
 use serde::{Deserialize, Serialize};
 use serde_json::{json, Value};
 use std::cell::RefCell;
-use std::collections::{BTreeMap, HashSet};
+use std::collections::{BTreeMap, BTreeSet, HashSet};
 use std::io::{BufRead, BufReader, Write};
 use std::panic::{catch_unwind, AssertUnwindSafe};
 use std::path::{Path, PathBuf};
@@ -99,6 +99,8 @@ pub struct RunStats {
     pub sample: Option<Value>,
     /// max observed / budget ratios etc. (max-merged)
     pub maxima: BTreeMap<String, u64>,
+    /// named coverage sets (union-merged; evidence reports their sizes)
+    pub sets: BTreeMap<String, BTreeSet<u64>>,
 }
 
 impl RunStats {
@@ -117,6 +119,9 @@ impl RunStats {
         if v > *e {
             *e = v;
         }
+    }
+    pub fn set_add(&mut self, key: &str, v: u64) {
+        self.sets.entry(key.to_string()).or_default().insert(v);
     }
     pub fn fingerprint(&mut self, fp: u64) {
         self.fingerprints.push(fp);
@@ -770,6 +775,7 @@ pub fn batch_main<P: Prop>(p: &P, opts: &Options) -> i32 {
     let mut counters: BTreeMap<String, u64> = BTreeMap::new();
     let mut maxima: BTreeMap<String, u64> = BTreeMap::new();
     let mut fps: HashSet<u64> = HashSet::new();
+    let mut sets: BTreeMap<String, BTreeSet<u64>> = BTreeMap::new();
     let mut sim_ops = 0u64;
     let mut sim_bytes = 0u64;
     let mut samples: Vec<Value> = Vec::new();
@@ -791,6 +797,9 @@ pub fn batch_main<P: Prop>(p: &P, opts: &Options) -> i32 {
             }
         }
         fps.extend(c.stats.fingerprints.iter().copied());
+        for (k, v) in &c.stats.sets {
+            sets.entry(k.clone()).or_default().extend(v.iter().copied());
+        }
         sim_ops += c.stats.sim_ops;
         sim_bytes += c.stats.sim_bytes;
         if samples.len() < 3 {
@@ -885,9 +894,6 @@ pub fn batch_main<P: Prop>(p: &P, opts: &Options) -> i32 {
     }
     for (fid, n) in &known_hits {
         if let Some((_, what)) = known.iter().find(|(k, _)| k == fid) {
-            if !p.regressions().iter().any(|_| false) {
-                // batch hits of a known class (regression inputs already printed their own line)
-            }
             println!("KNOWN-FINDING: property={id} {fid}: {what} [{n} case(s) in this run]");
         }
     }
@@ -940,6 +946,7 @@ pub fn batch_main<P: Prop>(p: &P, opts: &Options) -> i32 {
             "reach_probes": probes,
             "counters": other,
             "maxima": maxima,
+            "distinct_values_reached": sets.iter().map(|(k, v)| (k.clone(), v.len())).collect::<BTreeMap<String, usize>>(),
             "known_findings_hit": known_hits,
             "components": {"real": meta.real, "stub": meta.stub},
             "exhaustive": false,
